@@ -12,8 +12,9 @@
  *                                  patterns, those with inv = 1 carrying "modifier invert-match": 1 / 0 / E
  *   entry <pattern> <string>+   -> per string "<a> <b> <c>" (joined by ','): a and b as for match, c = the XPath
  *                                  function re-match(/x:s, /x:p) evaluated by lyd_eval_xpath() on a data tree whose
- *                                  leaves s and p hold the string and the pattern: 1 / 0, E (evaluation failed:
- *                                  pattern rejected), V (string or pattern is not a valid value of a YANG string leaf)
+ *                                  leaves s and p hold the string and the pattern: 1 / 0, E (evaluation failed with
+ *                                  LY_EVALID: pattern rejected), L (failed otherwise: the matcher gave up), V (string or
+ *                                  pattern is not a valid value of a YANG string leaf)
  *
  * Linked with --wrap=pcre2_compile_8: __wrap_pcre2_compile_8 records the pattern text and calls the real function.
  * VERIF_FLAGS: -Wl,--wrap=pcre2_compile_8
@@ -168,7 +169,7 @@ xpath_rematch(const char *pat, const char *str)
         out = 'V';
     } else {
         r = lyd_eval_xpath(tree, "re-match(/x:s, /x:p)", &res);
-        out = r ? 'E' : (res ? '1' : '0');
+        out = !r ? (res ? '1' : '0') : ((r == LY_EVALID) ? 'E' : 'L');
     }
     lyd_free_all(tree);
     ly_err_clean(xctx, NULL);
